@@ -65,6 +65,42 @@ theorem queue_length (window : Nat) (hw : 1 ≤ window) (r : β) (rs : List β) 
   apply lastN_length
   simp
 
+/-- the last `n` of `A ++ B` are the last `n` of `B` as soon as `B` has `n` elements -/
+theorem lastN_append_of_le (n : Nat) (A B : List β) (h : n ≤ B.length) : lastN n (A ++ B) = lastN n B := by
+  unfold lastN
+  simp only [List.length_append]
+  have e : A.length + B.length - n = A.length + (B.length - n) := by omega
+  rw [e, ← List.drop_drop, List.drop_left]
+
+/-- **No padding once a full window has been fed**: if at least `window` rows were observed, the queue is exactly
+    the last `window` of them. -/
+theorem queue_full_window (window : Nat) (hw : 1 ≤ window) (r : β) (rs : List β)
+    (h : window ≤ (r :: rs).length) : queueAfter window (r :: rs) = lastN window (r :: rs) := by
+  rw [queue_window window hw, lastN_append_of_le window _ _ h]
+
+/-- **An episode that starts in the middle of the data** (a fold, a sampled window): the state is fed only the
+    rows `fed` inside the warm-up horizon, a suffix of the published table `old ++ fed` up to the step. As soon
+    as the horizon covers a full window the observation is the last `window` rows of the *whole* table dated at or
+    before the step - what the property demands; nothing depends on how far back `old` reaches. -/
+theorem warmup_serves_table (window : Nat) (hw : 1 ≤ window) (old : List β) (r : β) (rs : List β)
+    (h : window ≤ (r :: rs).length) :
+    queueAfter window (r :: rs) = lastN window (old ++ r :: rs) := by
+  rw [queue_full_window window hw r rs h, lastN_append_of_le window old _ h]
+
+/-- the excluded point of `warmup_serves_table`: a horizon shorter than the window shows as copies of the oldest
+    replayed row (the declared shape is kept, the rows are not those of the table) -/
+theorem warmup_short_pads (window : Nat) (hw : 1 ≤ window) (r : β) (rs : List β)
+    (h : (r :: rs).length < window) :
+    queueAfter window (r :: rs) = List.replicate (window - (r :: rs).length) r ++ r :: rs := by
+  rw [queue_window window hw]
+  unfold lastN
+  have hl : (List.replicate window r ++ r :: rs).length - window = (r :: rs).length := by
+    simp only [List.length_append, List.length_replicate]; omega
+  rw [hl]
+  have hle : (r :: rs).length ≤ (List.replicate window r).length := by
+    simp only [List.length_replicate]; omega
+  rw [List.drop_append_of_le_length hle, List.drop_replicate]
+
 /-- number of rows kept by the stride: `ceil(len / stride)` -/
 theorem everyNth_length (stride : Nat) (hs : 1 ≤ stride) (l : List β) :
     (everyNth stride l).length = (l.length + stride - 1) / stride := by
